@@ -740,6 +740,13 @@ def install(repo_root: str | None = None) -> None:
         ats.Future = CFuture  # the library blocks on future.result(): must be a controlled wait
     except Exception:
         pass
+    # process-wide caches whose first use takes a different code path (and therefore different line events) than later
+    # uses: warm them up so that every execution, including the first one of a worker process, sees the same path
+    from reactivex.scheduler import CurrentThreadScheduler, ImmediateScheduler, TimeoutScheduler
+
+    CurrentThreadScheduler.singleton()
+    TimeoutScheduler()
+    ImmediateScheduler()
     _installed = True
 
 
